@@ -38,7 +38,7 @@ def tame(c):
 
 def draw_size(c):
     kind, q, d = c["kind"], c["q"], c["d"]
-    return (q + 1) * d if kind in ("dense", "blockdiag") else q + 1
+    return (q + 1) * d          # dense (N,), isotropic (n, d), blockdiag (d, n)
 
 
 def gen_cases(ck):
@@ -164,11 +164,11 @@ def coq_args(n, c, inp, big=True):
     return f"{lib.coq_nat(n)} {lib.coq_nat(c)} {lib.qcmat(m0)} {lib.qcmat(L0)} [{cs}] [{'; '.join(lib.qcmat(L) for L in Ls)}]"
 
 
-def coq_draws(cols, big=True):
-    """cols: list over draws (consumption order) of length-n vectors"""
+def coq_draws(mats, big=True):
+    """mats: list over draws (consumption order) of n x c matrices"""
     if big:
-        return "[" + "; ".join(bmat([[x] for x in z]) for z in cols) + "]"
-    return "[" + "; ".join(lib.qcmat([[x] for x in z]) for z in cols) + "]"
+        return "[" + "; ".join(bmat(z) for z in mats) + "]"
+    return "[" + "; ".join(lib.qcmat(z) for z in mats) + "]"
 
 
 # ------------------------------------------------------------------ layouts
@@ -191,13 +191,18 @@ def block_view(c, S, a):
 
 
 def block_draws(c, z, a, T):
-    """flat draw vector (call order x requested shape) -> list over calls of the length-n draw of block a"""
-    n, _cc, _nb = dims(c)
+    """flat draw vector (call order x requested shape) -> list over calls of the n x c draw of block a"""
+    n, cc, _nb = dims(c)
     size = draw_size(c)
     out = []
     for t in range(T):
         seg = z[t * size:(t + 1) * size]
-        out.append(seg[a * n:(a + 1) * n] if c["kind"] == "blockdiag" else seg)
+        if c["kind"] == "blockdiag":
+            out.append([[x] for x in seg[a * n:(a + 1) * n]])
+        elif c["kind"] == "iso":
+            out.append([seg[i * cc:(i + 1) * cc] for i in range(n)])
+        else:
+            out.append([[x] for x in seg])
     return out
 
 
@@ -359,7 +364,7 @@ def main():
             continue
         # ---------------- call order / requested shapes / key discipline (v)
         normals = [e for e in r["log"] if e[0] == "normal"]
-        want_shape = {"dense": [n], "iso": [n], "blockdiag": [c["d"], n]}[kind]
+        want_shape = {"dense": [n], "iso": [n, c["d"]], "blockdiag": [c["d"], n]}[kind]
         if len(normals) != T or any(e[2] != want_shape for e in normals):
             ck.report(sig("shape"), f"random.normal called {len(normals)} times with shapes {[e[2] for e in normals][:4]}; expected {T} calls of shape {want_shape}", replay)
             continue
@@ -443,8 +448,8 @@ def main():
                 idx = np.unravel_index(np.argmax(np.where(same, 0.0, dG / tolG)), dG.shape)
                 ck.report("C13.iso.gram.cross-dimension",
                           f"isotropic model, d={c['d']}: the Gram matrix M M^T of the sampling map has entry {float(G[idx])!r} between DIFFERENT state dimensions "
-                          f"(flattened (time,coeff,dim) indices {tuple(int(x) for x in idx)}) where the isotropic law Cov (x) I_d has 0: one draw of length n is shared by "
-                          f"all d columns in IsotropicNormal.sample_flat ((L z)[:, None]); M M^T == Cov (x) ones(d,d): {sh}", replay)
+                          f"(flattened (time,coeff,dim) indices {tuple(int(x) for x in idx)}) where the isotropic law Cov (x) I_d has 0: the state dimensions do not get "
+                          f"independent noise in IsotropicNormal.sample_flat; M M^T == Cov (x) ones(d,d) (one draw shared by all dimensions): {sh}", replay)
             else:
                 worst["gram"] = max(worst["gram"], float((dG / tolG).max()) * GTOL)
         elif not np.all(dG <= tolG):
@@ -467,10 +472,10 @@ def main():
         for a in range(nb):
             inp = block_inputs(r, a)
             rev = lib.coq_bool(r["reverse"])
-            if n ** 3 * T ** 2 <= FULL_COST:
+            if n ** 3 * cc * T ** 2 <= FULL_COST:
                 emit.append((i, a, "all", f"sample_all_run_b {rev} {coq_args(n, cc, inp)}"))
             else:
-                zero = [[Fr(0)] * n for _ in range(T)]
+                zero = [[[Fr(0)] * cc for _ in range(n)] for _ in range(T)]
                 emit.append((i, a, "zero", f"sample_run_b {rev} {coq_args(n, cc, inp)} {coq_draws(zero)}"))
                 for zi, z in enumerate(c["zr"]):
                     emit.append((i, a, f"z{zi}", f"sample_run_b {rev} {coq_args(n, cc, inp)} {coq_draws(block_draws(c, z, a, T))}"))
@@ -483,7 +488,7 @@ def main():
         n, cc, nb = dims(c)
         T = r["ncond"] + 1
         inp = block_inputs(r, a)
-        zero = [[Fr(0)] * n for _ in range(T)]
+        zero = [[[Fr(0)] * cc for _ in range(n)] for _ in range(T)]
         xterms.append((f"sample_run {lib.coq_bool(r['reverse'])} {coq_args(n, cc, inp, big=False)} {coq_draws(zero, big=False)}",
                        f"sample_run_b {lib.coq_bool(r['reverse'])} {coq_args(n, cc, inp)} {coq_draws(zero)}"))
     _t1 = _time.time()
@@ -543,17 +548,17 @@ def main():
                 units = np.array(r["units"])
                 size = draw_size(c)
                 for t in range(T):
-                    for l in range(n):
-                        j = t * size + (a * n + l if kind == "blockdiag" else l)
+                    for l, b in [(l_, b_) for l_ in range(n) for b_ in range(cc)]:
+                        j = t * size + (a * n + l if kind == "blockdiag" else l * cc + b)
                         col = block_view(c, units[j], a) - S0
-                        off = blk * (1 + t * n + l)
+                        off = blk * (1 + (t * n + l) * cc + b)
                         mcol = np.array([float(x - y) for x, y in zip(mv[off:off + blk], mv[:blk])]).reshape(T, n, cc)
                         e_ = np.abs(col - mcol)
                         t_ = RTOL * (np.abs(mcol) + sdb) + 1e-13 * mag
                         compared_units += 1
                         if not np.all(e_ <= t_):
                             idx = np.unravel_index(np.argmax(e_ / t_), e_.shape)
-                            ck.report(sig("linear-map"), f"{kind} block {a}: column of M for draw (call {t}, component {l}) at [time {int(idx[0])}, coeff {int(idx[1])}, col {int(idx[2])}] "
+                            ck.report(sig("linear-map"), f"{kind} block {a}: column of M for draw (call {t}, component ({l},{b})) at [time {int(idx[0])}, coeff {int(idx[1])}, col {int(idx[2])}] "
                                       f"is {float(col[idx])!r}, model {float(mcol[idx])!r}", replay)
                             break
                         worst["lin"] = max(worst["lin"], float((e_ / t_).max()) * RTOL)
